@@ -348,10 +348,19 @@ def make(shape):
             app.add_hook("after_request", hook("a1", False))
             app.add_hook("after_request", once("after_request", "a2"))
         else:
-            app.add_hook("before_request", hook("b1", fail == 1))
-            app.add_hook("before_request", hook("b2", fail == 2))
-            app.add_hook("after_request", hook("a1", False))
-            app.add_hook("after_request", hook("a2", False))
+            style = HOOK_STYLE[0]
+
+            def register(name, f):          # the three public spellings of hook registration
+                if style == "add_hook":
+                    app.add_hook(name, f)
+                elif style == "on-call":
+                    app.on(name, f)
+                else:
+                    app.on(name)(f)
+            register("before_request", hook("b1", fail == 1))
+            register("before_request", hook("b2", fail == 2))
+            register("after_request", hook("a1", False))
+            register("after_request", hook("a2", False))
         iterable = build(app, shape, ctx)
         # shapes that hand the SAME response object to the framework on every request are served twice with
         # URLs of different length (the error page shows the URL): the second response must be well-formed too
@@ -378,6 +387,22 @@ def make(shape):
             if r:
                 return r if not n else "request #2 on the same application: " + r
         return None
+    return q
+
+
+HOOK_STYLE = ["add_hook"]
+
+
+def with_hook_style(style, fn):
+    def q(*a, **kw):
+        HOOK_STYLE[0] = style
+        try:
+            return fn(*a, **kw)
+        finally:
+            HOOK_STYLE[0] = "add_hook"
+    import inspect
+    q.__signature__ = inspect.signature(fn)
+    q.__annotations__ = dict(getattr(fn, "__annotations__", {}))
     return q
 
 
@@ -527,6 +552,13 @@ def queries(tier):
                      "handler shape %r; method in %r, body text <= 2 code points (any; error-page shapes: from a fixed list), 0..2 leading empty items, failing "
                      "before-hook none/1st/2nd; %s" % (shape, METHODS, bound),
                      timeout=250 if not T else 800, per_path_timeout=60, family="shape", config={"shape": shape}))
+    # hooks registered through the other public spellings (app.on as a call / as a decorator)
+    for style in ("on-call", "on-decorator"):
+        for shape in (["str", "raise_exc"] if not T else ["str", "raise_exc", "gen_str", "raise_response", "no_route", "wrong_method"]):
+            base = next(q for q in out if q.qid == "shape/" + shape)
+            out.append(Q("hooks-%s/%s" % (style, shape), with_hook_style(style, base.fn), base.bound + "; hooks registered through "
+                         + ("app.on(name, f)" if style == "on-call" else "@app.on(name)"), timeout=base.timeout,
+                         per_path_timeout=base.per_path_timeout, family="hook-style", config={"shape": shape, "style": style}))
     # the configuration dimension: the same effective settings reached through app.setup / two setup calls
     from vf import appconfigs
     out += appconfigs.variants(list(out), ["setup", "setup-twice"], lambda q: q.qid in ("shape/raise_exc", "shape/ret_error", "shape/wrong_method", "shape/custom_500", "shape/file"))
